@@ -178,6 +178,18 @@ Definition printed (kv : bytes * fval) : bytes * bytes := (fst kv, print_fval (s
 End Print.
 
 (* ---- the expected decoded form of a record (appendix A.2) ---- *)
+Definition lk_time : bytes := [x74;x69;x6d;x65].
+Definition lk_logger : bytes := [x6c;x6f;x67;x67;x65;x72].
+Definition lk_level : bytes := [x6c;x65;x76;x65;x6c].
+Definition lk_msg : bytes := [x6d;x73;x67].
+Definition lk_caller_file : bytes := [x63;x61;x6c;x6c;x65;x72;x2e;x66;x69;x6c;x65].
+Definition lk_caller_line : bytes := [x63;x61;x6c;x6c;x65;x72;x2e;x6c;x69;x6e;x65].
+Definition lk_caller_function : bytes := [x63;x61;x6c;x6c;x65;x72;x2e;x66;x75;x6e;x63;x74;x69;x6f;x6e].
+Definition lk_caller : bytes := [x63;x61;x6c;x6c;x65;x72].
+(* the names the record itself uses; an attribute named time holding a time value is printed
+   by a special rule of serializeAttrs, so these names are not attribute keys of the property *)
+Definition reserved (k : bytes) : bool := existsb (bytes_eqb k) [lk_time; lk_logger; lk_level; lk_msg; lk_caller].
+
 Definition dotted (pfx k : bytes) : bytes := match pfx with [] => k | _ => pfx ++ x2e :: k end.
 
 Definition lf_bool (b : bool) : bytes := if b then [x74;x72;x75;x65] else [x66;x61;x6c;x73;x65].
@@ -228,14 +240,6 @@ Fixpoint leaves (pfx : bytes) (l : list attr) : list (bytes * fval) :=
   | A k x :: t => leaves_v (dotted pfx k) x ++ leaves pfx t
   end.
 
-Definition lk_time : bytes := [x74;x69;x6d;x65].
-Definition lk_logger : bytes := [x6c;x6f;x67;x67;x65;x72].
-Definition lk_level : bytes := [x6c;x65;x76;x65;x6c].
-Definition lk_msg : bytes := [x6d;x73;x67].
-Definition lk_caller_file : bytes := [x63;x61;x6c;x6c;x65;x72;x2e;x66;x69;x6c;x65].
-Definition lk_caller_line : bytes := [x63;x61;x6c;x6c;x65;x72;x2e;x6c;x69;x6e;x65].
-Definition lk_caller_function : bytes := [x63;x61;x6c;x6c;x65;x72;x2e;x66;x75;x6e;x63;x74;x69;x6f;x6e].
-
 (* time, logger iff named, level, msg, every leaf attribute of the normalised tree
    (each level sorted by key, last of equal keys wins), the caller iff it is on *)
 Definition fields_of (g : registry) (c : ecfg) (msg : bytes) (attrs : list attr) : list (bytes * fval) :=
@@ -250,11 +254,12 @@ Definition fields_of (g : registry) (c : ecfg) (msg : bytes) (attrs : list attr)
       end).
 
 (* ---- the domain of the property ---- *)
-(* a legal logfmt key: non-empty, no blank, no control byte, no DEL, no '=' and no quote *)
+(* a legal logfmt key: non-empty, no blank, no control byte, no DEL, no '=' and no quote,
+   and not one of the reserved names *)
 Definition key_byte_ok (b : byte) : bool :=
   (32 <? bz b) && negb (bz b =? 127) && negb (is_eq b) && negb (is_dq b).
 Definition legal_key (k : bytes) : bool :=
-  match k with [] => false | _ => forallb key_byte_ok k end.
+  match k with [] => false | _ => forallb key_byte_ok k end && negb (reserved k).
 
 (* Text produced by the Go standard library, which logg prints WITHOUT escaping it:
    - [qtext_ok]: time.Time.AppendFormat output (the record's timestamp [e_ts], VTime, the
